@@ -38,6 +38,19 @@ Theorem C06_base58_decode_injective : forall t1 t2 b, b58_decode t1 = Ok b -> b5
 Proof. exact b58_decode_inj. Qed.
 Print Assumptions C06_base58_decode_injective.
 
+(* decode accepts exactly the non-empty strings over the 58-character alphabet (everything else is a Base58Error), *)
+Theorem C06_base58_decode_accepts : forall t,
+  (exists b, b58_decode t = Ok b) <-> (t <> [] /\ Forall (fun c => In c alphabet) t).
+Proof. exact b58_decode_accepts. Qed.
+Print Assumptions C06_base58_decode_accepts.
+
+(* and different byte strings (each with a non-zero byte) have different encodings. *)
+Theorem C06_base58_encode_injective : forall b1 b2 t,
+  (exists c, In c b1 /\ c <> x00) -> (exists c, In c b2 /\ c <> x00) ->
+  b58_encode b1 = Ok t -> b58_encode b2 = Ok t -> b1 = b2.
+Proof. exact b58_encode_injective. Qed.
+Print Assumptions C06_base58_encode_injective.
+
 (* ======================================================================== Base58Check *)
 
 (* Every payload whose first byte is non-zero (every LBRY version / prefix byte) survives
@@ -61,6 +74,12 @@ Theorem C06_base58check_injective : forall (dsha : bytes -> bytes) t1 t2 p,
   b58_decode_check dsha t1 = Ok p -> b58_decode_check dsha t2 = Ok p -> t1 = t2.
 Proof. exact b58check_inj. Qed.
 Print Assumptions C06_base58check_injective.
+
+(* The only ways decode_check fails: empty string, a character outside the alphabet, checksum mismatch. *)
+Theorem C06_base58check_error_classes : forall (dsha : bytes -> bytes) t e,
+  b58_decode_check dsha t = Err e -> e = EEmpty \/ e = EChar \/ e = EChecksum.
+Proof. exact b58check_errors. Qed.
+Print Assumptions C06_base58check_error_classes.
 
 (* ======================================================================== extended keys *)
 
@@ -92,6 +111,16 @@ Theorem C06_extkey_string_roundtrip : forall (ver_pub ver_priv : bytes) (pub_val
             xk_of_string ver_pub ver_priv pub_valid dsha t = Ok (xk_forget_parent k).
 Proof. exact xk_string_roundtrip. Qed.
 Print Assumptions C06_extkey_string_roundtrip.
+
+(* An extended-key string is accepted only if its Base58Check checksum matches and the 78 bytes are a
+   well-formed key; the key object is that key without its parent fingerprint. *)
+Theorem C06_extkey_string_sound : forall (ver_pub ver_priv : bytes) (pub_valid : bytes -> bool),
+  length ver_pub = 4%nat -> length ver_priv = 4%nat -> ver_pub <> ver_priv ->
+  forall (dsha : bytes -> bytes) t k, xk_of_string ver_pub ver_priv pub_valid dsha t = Ok k ->
+  exists k0, b58_decode_check dsha t = Ok (xk_serialize ver_pub ver_priv k0) /\ xk_wf pub_valid k0 /\
+             k = xk_forget_parent k0.
+Proof. exact xk_of_string_sound. Qed.
+Print Assumptions C06_extkey_string_sound.
 
 (* For a master key (zero parent fingerprint) parsing and serialising again gives the same 78 bytes. *)
 Theorem C06_extkey_reserialize_master : forall (ver_pub ver_priv : bytes) (pub_valid : bytes -> bool),
@@ -128,6 +157,15 @@ Theorem C06_derive_public_matches_private :
   = res_map (neuter pub) (derive hmac512 pub pub_add hash160 k path).
 Proof. exact derive_public_matches_private. Qed.
 Print Assumptions C06_derive_public_matches_private.
+
+(* Paths compose: deriving along p ++ q is deriving along p and then along q (m/a/b = (m/a)/b). *)
+Theorem C06_derive_composes :
+  forall (hmac512 : bytes -> bytes -> bytes) (pub : bytes -> bytes) (pub_add : bytes -> bytes -> option bytes)
+         (hash160 : bytes -> bytes) p q k,
+  derive hmac512 pub pub_add hash160 k (p ++ q)
+  = bind (derive hmac512 pub pub_add hash160 k p) (fun c => derive hmac512 pub pub_add hash160 c q).
+Proof. exact derive_app. Qed.
+Print Assumptions C06_derive_composes.
 
 (* Hardened derivation from a public key is refused, at a single step and anywhere in a path. *)
 Theorem C06_hardened_needs_private :
@@ -224,6 +262,21 @@ Theorem C06_gap_maintained : forall (addr_of : N -> bytes) (ops : list gop) (gap
 Proof. exact gap_maintained. Qed.
 Print Assumptions C06_gap_maintained.
 
+(* It generates no more than necessary: if anything was generated, the chain now has exactly [gap] rows or the
+   row just below the final window of [gap] unused rows is a used one. *)
+Theorem C06_gap_tight : forall (addr_of : N -> bytes) (gap : nat) (t : list row), wf_table addr_of t ->
+  snd (ensure_gap addr_of gap t) <> [] ->
+  let t' := fst (ensure_gap addr_of gap t) in
+  length t' = gap \/ ((gap < length t')%nat /\ unused (nth (length t' - gap - 1) t' (mk_row 0 [] 0)) = false).
+Proof. exact ensure_gap_tight. Qed.
+Print Assumptions C06_gap_tight.
+
+(* Calling ensure_address_gap again right away generates nothing. *)
+Theorem C06_gap_idempotent : forall (addr_of : N -> bytes) (gap : nat) (t : list row), wf_table addr_of t ->
+  ensure_gap addr_of gap (fst (ensure_gap addr_of gap t)) = (fst (ensure_gap addr_of gap t), []).
+Proof. exact ensure_gap_idempotent. Qed.
+Print Assumptions C06_gap_idempotent.
+
 (* get_address_records lists exactly the rows of the chain ordered by (used_times, n). *)
 Theorem C06_address_records_sorted : forall t : list row,
   Permutation (address_records t) t /\ sorted (address_records t).
@@ -239,6 +292,13 @@ Theorem C06_mnemonic_roundtrip : forall words : list bytes,
   forall i : N, mnemonic_decode words (mnemonic_encode words i) = Ok i.
 Proof. exact mnemonic_roundtrip. Qed.
 Print Assumptions C06_mnemonic_roundtrip.
+
+(* Hence different numbers have different phrases. *)
+Theorem C06_mnemonic_injective : forall words : list bytes,
+  NoDup words -> (2 <= length words)%nat -> Forall good_word words ->
+  forall i j : N, mnemonic_encode words i = mnemonic_encode words j -> i = j.
+Proof. exact mnemonic_encode_injective. Qed.
+Print Assumptions C06_mnemonic_injective.
 
 (* What is accepted are words of the list, read as base-n digits, first word least significant. *)
 Theorem C06_mnemonic_decode_sound : forall words : list bytes, (2 <= length words)%nat -> forall s i,
